@@ -553,9 +553,10 @@ class FSM:
 
     def wait_for_crew(self):
         def done(*_args, **_kwds):
+            # this poller is gone whether or not it is still the active wait
+            self.crew_thread = None
             if self.waiting_on_crew():
                 self.update_trigger()
-                self.crew_thread = None
                 pass
             return
 
@@ -579,9 +580,10 @@ class FSM:
 
     def wait_for_doing(self):
         def done(*_args, **_kwds):
+            # this poller is gone whether or not it is still the active wait
+            self.doing_thread = None
             if self.waiting_on_doing():
                 self.update_trigger()
-                self.doing_thread = None
                 pass
             return
 
@@ -612,9 +614,10 @@ class FSM:
 
     def wait_for_todo(self):
         def done(*_args, **_kwds):
+            # this poller is gone whether or not it is still the active wait
+            self.todo_thread = None
             if self.waiting_on_todo():
                 self.update_trigger()
-                self.todo_thread = None
                 pass
             return
 
